@@ -30,7 +30,17 @@ of those deviations (shape of the case : outcome the deviation predicts).  With 
 repairs applied the deviations predict nothing that differs, so no key is produced (checked in
 --selftest).  Anything else is a VIOLATION.
 
-Not determined by the property, therefore not asserted: the relative order of files that no
+Blank definitions: `js = ""`, `css = "\\n"`, an empty / whitespace-only `js_file` ... are DEFINED values
+(MediaInherit!Content): the nearest class that sets either member of the pair wins also when its text is
+blank, `x = ""` beside `x_file` is rejected, and a rendered document (access "render": template with the
+dependency placeholders) carries the script / style of the nearest definition only when that text is not
+blank - never the one of a class further up the MRO.  Whitespace-only texts encode the defining class in
+their length, so the source of a blank value is compared too; the empty string has no identity and is
+compared as a value.  Families "blank" / "blank4" enumerate blank definitions at every level of 3- and
+4-class hierarchies (single, multiple, diamond), accessed on classes and instances, before and after a render.
+
+Not determined by the property, therefore not asserted: what rendering does when no class defines a template
+(it raises), where tags go in a blank document (only: nothing foreign in it); the relative order of files that no
 declared list relates, the order when the declared lists are cyclic (Django warns; compared
 as sets), which classes end up memoised.  Hierarchies Python itself rejects (no C3 order) are
 only used to cross-check the MRO transcription (a disagreement there is a machinery error).
@@ -88,16 +98,50 @@ class World:
                 (self.root / "sub" / f"r{i}.{ext}").write_text(f"/* r{i} */")
         for c in range(1, 9):
             for p in PAIRS:
-                (self.root / self.attr_file(c, p)).write_text(self.content(c, p, "file"))
+                for text in ("text", "empty", "ws"):
+                    (self.root / self.attr_file(c, p, text)).write_text(self.content(c, p, "file", text))
         self.counter = 0
 
     @staticmethod
-    def attr_file(c: int, p: str) -> str:
-        return f"a{c}_{p}.{EXT[p]}"
+    def attr_file(c: int, p: str, text: str = "text") -> str:
+        return f"a{c}_{p}{'' if text == 'text' else '_' + text}.{EXT[p]}"
 
     @staticmethod
-    def content(c: int, p: str, kind: str) -> str:
-        return f"{p}:{kind}:c{c}"
+    def content(c: int, p: str, kind: str, text: str = "text") -> str:
+        """The text class c writes for p (inline or in its file).  Ordinary text names pair, member and class
+        (a template also holds the dependency placeholders, so that a rendered document shows script and
+        style); a whitespace-only text encodes the class in its length and the member in its last character."""
+        if text == "empty":
+            return ""
+        if text == "ws":
+            return " " * c + ("\n" if kind == "inline" else "\t")
+        mark = f"{p}:{kind}:c{c}"
+        return mark if p != "template" else \
+            "{% component_css_dependencies %}<div>" + mark + "</div>{% component_js_dependencies %}"
+
+    @staticmethod
+    def decode_value(p: str, v: Any) -> Tuple[int, str, str]:
+        """(src, member, val) of a value of `C.<p>`."""
+        if v is None:
+            return 0, "none", "none"
+        if not isinstance(v, str):
+            return UNKNOWN, "unknown", "unknown"
+        if v == "":
+            return 0, "none", "empty"                      # no class identity in an empty string
+        m = re.fullmatch(r"( +)([\n\t])", v)
+        if m:
+            return len(m.group(1)), "inline" if m.group(2) == "\n" else "file", "ws"
+        pat = rf"{p}:(inline|file):c(\d+)"
+        if p == "template":
+            pat = r"\{% component_css_dependencies %\}<div>" + pat + r"</div>\{% component_js_dependencies %\}"
+        m = re.fullmatch(pat, v)
+        return (int(m.group(2)), m.group(1), "text") if m else (UNKNOWN, "unknown", "unknown")
+
+    @staticmethod
+    def shipped(p: str, html: str) -> List[int]:
+        """MediaInherit!RCode of every text of pair p found in a rendered document."""
+        return sorted({int(c) * 10 + (1 if k == "inline" else 2)
+                       for k, c in re.findall(rf"{p}:(inline|file):c(\d+)", html)})
 
     @staticmethod
     def fname(f: int, t: str, rel) -> str:
@@ -194,7 +238,10 @@ def run_real(cls_recs, rel, accesses, forms: int, keep_memo: bool = False) -> Li
     w.counter += 1
     # every third run re-uses ONE module name, so distinct classes with the same module + qualname exist
     # over time (a class factory / module reload): results must still be per class object
-    modname = "vf_c16_case_shared" if w.counter % 3 == 0 else f"vf_c16_case_{w.counter}"
+    # (not for runs that render: the script cache and the class table of the dependency manager are keyed by
+    # module + name, which is C19's subject)
+    shared = w.counter % 3 == 0 and not any(a == "render" for _, a, _ in accesses)
+    modname = "vf_c16_case_shared" if shared else f"vf_c16_case_{w.counter}"
     mod = types.ModuleType(modname)
     mod.__file__ = str(w.root / "sub" / "m.py")
     sys.modules[modname] = mod
@@ -220,12 +267,14 @@ def run_real(cls_recs, rel, accesses, forms: int, keep_memo: bool = False) -> Li
                         attrs["Media"] = _media_class(rec, rel, classes, rnd, canonical=plain)
                     for p in PAIRS:
                         k = "none" if plain else rec["attr"][p]
-                        if k in ("inline", "both"):
-                            attrs[p] = World.content(i, p, "inline")
-                        if k in ("file", "both"):
+                        member, _, text = k.partition("-")          # e.g. "inline-empty", "file-ws", "both-empty"
+                        text = text or "text"
+                        if member in ("inline", "both"):
+                            attrs[p] = World.content(i, p, "inline", text)
+                        if member in ("file", "both"):
                             # `template_name` is the documented older spelling of `template_file`
                             name = "template_name" if p == "template" and rnd.random() < 0.25 else p + "_file"
-                            attrs[name] = World.attr_file(i, p)
+                            attrs[name] = World.attr_file(i, p, "text" if member == "both" else text)
                     classes[i] = type(f"K{i}", bases, attrs)
                     out = "ok"
                 except ImproperlyConfigured:
@@ -245,7 +294,8 @@ def run_real(cls_recs, rel, accesses, forms: int, keep_memo: bool = False) -> Li
                 if c not in classes or (c and cls_recs[c - 1].get("plain", False)):
                     continue
                 ev = {"op": "access", "c": c, "a": a, "via": via, "exc": False, "js": [], "all": [],
-                      "print": [], "other": 0, "src": 0, "kind": "none", "file": 0}
+                      "print": [], "other": 0, "src": 0, "kind": "none", "val": "none", "file": 0,
+                      "rtpl": [], "rjs": [], "rcss": []}
                 try:
                     target = classes[c] if via == "cls" else classes[c]()
                     if a == "media":
@@ -257,16 +307,17 @@ def run_real(cls_recs, rel, accesses, forms: int, keep_memo: bool = False) -> Li
                                 ev[medium] = [World.decode(x, medium) for x in lst]
                             elif lst:
                                 ev["other"] += 1
+                    elif a == "render":
+                        html = target.render()
+                        ev["rtpl"], ev["rjs"], ev["rcss"] = (World.shipped(p, html) for p in PAIRS)
                     else:
                         v = getattr(target, a)
                         fv = getattr(target, a + "_file")
                         if a == "template" and target.template_name != fv:
                             fv = ("template_name differs", fv, target.template_name)
-                        if v is not None:
-                            m_ = re.fullmatch(rf"{a}:(inline|file):c(\d+)", v) if isinstance(v, str) else None
-                            ev["src"], ev["kind"] = (int(m_.group(2)), m_.group(1)) if m_ else (UNKNOWN, "unknown")
+                        ev["src"], ev["kind"], ev["val"] = World.decode_value(a, v)
                         if fv is not None:
-                            m_ = re.fullmatch(rf"a(\d+)_{a}\.{EXT[a]}", fv) if isinstance(fv, str) else None
+                            m_ = re.fullmatch(rf"a(\d+)_{a}(?:_empty|_ws)?\.{EXT[a]}", fv) if isinstance(fv, str) else None
                             ev["file"] = int(m_.group(1)) if m_ else UNKNOWN
                 except Exception as e:  # the specification never raises on an access
                     ev["exc"] = True
@@ -288,7 +339,8 @@ def run_real(cls_recs, rel, accesses, forms: int, keep_memo: bool = False) -> Li
 # ---------------------------------------------------------------- comparing with the export
 ROOT_EXP = {"create": ["ok"], "files": {t: [] for t in TYPES}, "cons": {t: True for t in TYPES},
             "prec": {t: [] for t in TYPES}, "mro": [0, OBJ],
-            "attr": {p: {"src": 0, "kind": "none"} for p in PAIRS}}
+            "attr": {p: {"src": 0, "kind": "none", "val": "none"} for p in PAIRS},
+            "render": {"determined": False, "document": False, "template": [], "js": [], "css": []}}
 
 
 def failing(ev, exp) -> List[str]:
@@ -298,6 +350,16 @@ def failing(ev, exp) -> List[str]:
                 (ev["out"] == "ok" and ev["mro"] != exp["mro"]):
             raise MachineryError(f"C3 transcription and Python disagree: {ev} vs {exp['create']} {exp['mro']}")
         return [] if ev["out"] in exp["create"] else [f"creation:{ev['out']}/{'|'.join(exp['create'])}"]
+    if ev["a"] == "render":
+        want = exp["render"]
+        if not want["determined"]:
+            return []
+        if ev["exc"]:
+            return ["exception:render"]
+        got = {"template": ev["rtpl"], "js": ev["rjs"], "css": ev["rcss"]}
+        if want["document"]:
+            return ["render:" + p for p in PAIRS if sorted(got[p]) != sorted(want[p])]
+        return ["render:" + p for p in PAIRS if (got[p] if p == "template" else set(got[p]) - set(want[p]))]
     if ev["exc"]:
         return ["exception:" + ev["a"]]
     bad = []
@@ -314,7 +376,8 @@ def failing(ev, exp) -> List[str]:
             bad.append("media-type:css")
     else:
         want = exp["attr"][ev["a"]]
-        if (ev["src"], ev["kind"]) != (want["src"], want["kind"]):
+        if ev["val"] != want["val"] or \
+                (want["val"] != "empty" and (ev["src"], ev["kind"]) != (want["src"], want["kind"])):
             bad.append("nearest:" + ev["a"])
         if ev["file"] != (want["src"] if want["kind"] == "file" else 0):
             bad.append("file-form:" + ev["a"])
@@ -424,6 +487,12 @@ FAMILIES = {
     # the pair rule and the rejection of both members
     "attr": {"quick": (dict(maxn=3, lists="ListsNone", kinds="KindsNone", attrs="AttrsAll"), None, 2),
              "thorough": (dict(maxn=3, lists="ListsNone", kinds="KindsNone", attrs="AttrsAll"), None, 6)},
+    # blank definitions ("" / whitespace only / empty file) at every level, read on classes and instances,
+    # before and after rendering
+    "blank": {"quick": (dict(maxn=3, lists="ListsNone", kinds="KindsNone", attrs="AttrsBlank"), None, 2),
+              "thorough": (dict(maxn=3, lists="ListsNone", kinds="KindsNone", attrs="AttrsBlank"), None, 6)},
+    "blank4": {"quick": (dict(maxn=4, lists="ListsNone", kinds="KindsNone", attrs="AttrsBlankFew"), 1000, 2),
+               "thorough": (dict(maxn=4, lists="ListsNone", kinds="KindsNone", attrs="AttrsBlankFew"), 4000, 4)},
     # four classes (diamonds): pair rule along the C3 MRO / Media through two paths
     "attr4": {"quick": (dict(maxn=4, lists="ListsNone", kinds="KindsNone", attrs="AttrsFew"), 1500, 2),
               "thorough": (dict(maxn=4, lists="ListsNone", kinds="KindsNone", attrs="AttrsFew"), None, 8)},
@@ -438,7 +507,7 @@ FAMILIES = {
             "thorough": (dict(maxn=3, lists="ListsRel", kinds="KindsBasic", attrs="AttrsFew", rel="Rel1",
                               exts="ExtsTF"), 2500, 2)},
 }
-ORDER = ("attr", "rel", "attr4", "media4", "mixin", "media")     # cheap exports first
+ORDER = ("attr", "blank", "rel", "attr4", "blank4", "media4", "mixin", "media")     # cheap exports first
 _export_cache: Dict[Any, Any] = {}
 
 
@@ -466,6 +535,11 @@ def plans(fam: str, usable: List[int], idx: int, nperms: int) -> List[List[List[
         elif fam.startswith("attr"):
             ps = PAIRS[n % 3:] + PAIRS[:n % 3]
             out.append([[c, p, v[(i + j) % 2]] for i, c in enumerate(perm) for j, p in enumerate(ps)])
+        elif fam.startswith("blank"):
+            ps = PAIRS[n % 3:] + PAIRS[:n % 3]
+            att = [[c, p, v[(i + j) % 2]] for i, c in enumerate(perm) for j, p in enumerate(ps)]
+            ren = [[c, "render", v[(i + 1) % 2]] for i, c in enumerate(perm)]
+            out.append(ren + att if (idx + n) % 3 == 0 else att + ren)
         else:
             med = [[c, "media", v[i % 2]] for i, c in enumerate(perm)]
             att = [[c, p, v[i % 2]] for i, c in enumerate(perm) for p in ("js", "template")]
@@ -545,7 +619,7 @@ def replay_cases(chk: Check, fam: str, quick: bool, exported, pool, small: bool 
             exps[k] = exp_of[canon(cls[:k])]
         m = len(cls) if row["last"]["create"] == ["ok"] else len(cls) - 1
         items.append((idx, cls, row["rel"], exps, m))
-    if pool is not None and len(items) > 2000:
+    if pool is not None and len(items) > 500:
         n = REPLAY_PROCS * 4
         results = pool.map(_replay_chunk, [(fam, nperms, chk.seed, items[k::n]) for k in range(n)])
     else:
@@ -587,6 +661,9 @@ def model_check_machine(quick: bool) -> Dict[str, Any]:
         # relative files, media and js in every order: the repaired model conforms
         "machine_rel": dict(maxn=2, maxacc=2 if quick else 3, lists="ListsRel", rel="Rel1", attrs="AttrsFew",
                             exts="ExtsTF", accattrs="AccMediaJs", accvias="ViasCls", extra=inv),
+        # blank definitions: attributes and renders in every order
+        "machine_blank": dict(maxn=2, maxacc=2, lists="ListsNone", kinds="KindsNone", attrs="AttrsBlank",
+                              accattrs="AccRender", accvias="ViasCls", extra=inv),
         "dev_inherit": dict(maxn=3, maxacc=1, lists="ListsTiny", accattrs="AccMedia", accvias="ViasCls",
                             impld="DevInherit", extra="INVARIANT ImplRefines\n"),
         "dev_flatten": dict(maxn=3, maxacc=1, lists="ListsQuick", accattrs="AccMedia", accvias="ViasCls",
@@ -616,7 +693,8 @@ def model_check_machine(quick: bool) -> Dict[str, Any]:
 
 
 # ---------------------------------------------------------------- code -> spec
-def gen_hierarchy(rnd: random.Random) -> Tuple[List[Dict[str, Any]], List[int]]:
+def gen_hierarchy(rnd: random.Random, rnd_b: random.Random) -> Tuple[List[Dict[str, Any]], List[int]]:
+    """rnd_b: a second stream for the blank flavours (so that the shapes drawn from rnd stay what they were)."""
     n = rnd.choice([3, 4, 4, 5, 5, 6])
     rel = rnd.choice([[], [], [1], [1, 2], [2]])
     cls = []
@@ -647,6 +725,8 @@ def gen_hierarchy(rnd: random.Random) -> Tuple[List[Dict[str, Any]], List[int]]:
         for p in PAIRS:
             z = rnd.random()
             attr[p] = "none" if plain or z < 0.55 else ("inline" if z < 0.76 else ("file" if z < 0.97 else "both"))
+            if attr[p] != "none" and rnd_b.random() < 0.3:      # a blank text: "", whitespace only, an empty file
+                attr[p] += "-empty" if attr[p] == "both" or rnd_b.random() < 0.5 else "-ws"
         cls.append({"plain": plain, "bases": bases, "media": media, "lists": lists, "ext": ext, "extl": extl,
                     "attr": attr})
     return cls, rel
@@ -655,9 +735,10 @@ def gen_hierarchy(rnd: random.Random) -> Tuple[List[Dict[str, Any]], List[int]]:
 def random_traces(chk: Check, ntraces: int) -> List[Dict[str, Any]]:
     """Record seeded random deeper runs on the real library (validated by TLC afterwards)."""
     rnd = random.Random(chk.seed * 7919 + 16)
+    rnd_b = random.Random(chk.seed * 7919 + 1616)
     pending = []
     for n in range(ntraces):
-        cls, rel = gen_hierarchy(rnd)
+        cls, rel = gen_hierarchy(rnd, rnd_b)
         forms = rnd.randrange(1 << 30)
         # create first (a rejected class ends the hierarchy), then choose the history
         created = run_real(cls, rel, [], forms, keep_memo=True)
@@ -669,6 +750,8 @@ def random_traces(chk: Check, ntraces: int) -> List[Dict[str, Any]]:
             c = rnd.choice([0] + comps * 3)
             a = "media" if rnd.random() < 0.5 else rnd.choice(PAIRS)
             acc.append([c, a, rnd.choice(["cls", "inst"])])
+            if rnd_b.random() < 0.12:                           # rendered tags, somewhere in the history
+                acc.append([rnd_b.choice([c] + comps), "render", rnd_b.choice(["cls", "inst"])])
         events = run_real(cls, rel, acc, forms, keep_memo=n < 2000)
         pending.append({"cls": cls, "rel": rel, "accesses": acc, "forms": forms, "events": events})
         chk.count({"cls": cls, "rel": rel, "accesses": acc})
@@ -728,11 +811,15 @@ def run(tier: str) -> int:
         "and instances; the rotation makes every order occur on every shape): family media = 3 classes, <= 2 bases, "
         "own Media none / (None) / 4-5 contents x extend True / False / every list of <= 2 earlier classes, "
         "exhaustive; attr = 3 classes x 7 asset-kind triples incl. both members, exhaustive; attr4 / media4 = 4 "
-        "classes (diamonds); mixin = plain non-Component classes with a nested Media as bases / in extend lists; "
+        "classes (diamonds); blank = 3 classes x 6 asset-kind triples with blank definitions (empty string, whitespace "
+        "only, empty / whitespace-only file, blank member beside the other member) at every level, exhaustive, read on "
+        "classes and instances before / after a render of every class; blank4 = the same on 4 classes (diamonds, the "
+        "blank class first / second among the bases); mixin = plain non-Component classes with a nested Media as bases / in extend lists; "
         "rel = component-relative files with media read before / after / between template, js, css (families in "
         "sampled_families: seeded sample of that many hierarchies).  A hierarchy that can still be "
         "extended is replayed as prefix of its extensions.  code -> spec: seeded random hierarchies of 3-6 classes, "
-        "<= 3 bases, lists of <= 3 files from 4, relative files, all surface forms, 4-14 random accesses, validated "
+        "<= 3 bases, lists of <= 3 files from 4, relative files, all surface forms, blank texts for 30% of the defined "
+        "assets, 4-14 random accesses plus renders, validated "
         "by Trace_C16; every run contradicting the exported expectation is also judged by Trace_C16.  Non-trivial = "
         ">= 2 usable classes and some class declares Media or an asset; distinct by hash of (family, hierarchy, "
         "access plan) resp. of the random run")
@@ -745,6 +832,9 @@ def run(tier: str) -> int:
         "SafeString entries and media_class subclasses are not generated; plain mixins carry only a Media in "
         "canonical form (nobody normalises it), never assets or component-relative files",
         "layer B (MediaInheritImpl) is used only to classify an observation the specification already rejected",
+        "a blank text (empty string, whitespace only, empty file) is a defined value; the empty string carries no class "
+        "identity and is compared as a value, whitespace-only texts encode their class; rendering is judged only when some "
+        "class defines a template, and for a blank template only 'nothing foreign in the document'",
     ]
     return chk.finish()
 
@@ -813,6 +903,20 @@ def selftest(tier: str) -> int:
             return patch(cm, "_get_comp_cls_attr", fn)
         return cmgr
 
+    def asset_probe(*edits):
+        def cmgr():
+            fn = _variant(cm, "_get_asset", list(edits))
+            if fn is None:
+                raise MachineryError("probe inapplicable: source text not found")
+            return patch(cm, "_get_asset", fn)
+        return cmgr
+
+    def post_init_truthy(self):
+        from django.core.exceptions import ImproperlyConfigured
+        for inlined_attr in ("template", "js", "css"):
+            if getattr(self, inlined_attr) and getattr(self, inlined_attr + "_file"):
+                raise ImproperlyConfigured(f"both '{inlined_attr}' and '{inlined_attr}_file' set")
+
     class NameKeyed(dict):
         """the memo table keyed by the class name instead of the class"""
         @staticmethod
@@ -847,10 +951,11 @@ def selftest(tier: str) -> int:
          media_probe(("        if unresolved_bases:\n", "        if unresolved_bases and curr_cls is comp_cls:\n"))),
         ("memo-keyed-by-class-name", lambda: patch(cm, "media_cache", NameKeyed())),
         ("css-media-types-other-than-all-dropped-on-merge",
-         media_probe(("css=merged_media._css)", "css={k: v for k, v in merged_media._css.items() if k == 'all'})"))),
+         media_probe(("media._css_lists = merged_media._css_lists",
+                      "media._css_lists = [{k: v for k, v in d.items() if k == 'all'} for d in merged_media._css_lists]"))),
         ("base-files-replace-own-files",
-         media_probe(("media = media_cls(js=merged_media._js, css=merged_media._css)",
-                      "media = media_cls(js=base_media._js or merged_media._js, css=merged_media._css)"))),
+         media_probe(("media._js_lists = merged_media._js_lists",
+                      "media._js_lists = base_media._js_lists if base_media._js else merged_media._js_lists"))),
         ("plain-mixin-bases-skipped",
          media_probe(("unresolved_bases = [base for base in bases if base not in media_cache]",
                       "unresolved_bases = [base for base in bases if base not in media_cache "
@@ -873,6 +978,19 @@ def selftest(tier: str) -> int:
         ("bases-not-loaded-on-child-access (order dependent)",
          attr_probe(("        if not comp_media.resolved:\n", "        if not comp_media.resolved and base is comp_cls:\n"))),
         ("both-members-accepted", lambda: patch(cm.ComponentMedia, "__post_init__", lambda self: None)),
+        # blank definitions ("" / whitespace only / empty file) are defined values
+        ("pair-emptiness-by-truthiness (blank override falls through to the parents)",
+         attr_probe(("inline_attr_empty = getattr(comp_media, inline_attr, None) is None",
+                     "inline_attr_empty = not getattr(comp_media, inline_attr, None)"))),
+        ("blank-js-css-normalised-to-None-when-resolved",
+         asset_probe(("    return asset_content\n",
+                      "    if type == 'static' and asset_content is not None and not asset_content.strip():\n"
+                      "        return None\n    return asset_content\n"))),
+        ("asset-text-stripped-when-resolved",
+         asset_probe(("    return asset_content\n",
+                      "    return asset_content.strip() if isinstance(asset_content, str) else asset_content\n"))),
+        ("both-members-check-by-truthiness (`js = \"\"` beside js_file accepted)",
+         lambda: patch(cm.ComponentMedia, "__post_init__", post_init_truthy)),
     ]
 
     # ---- (i) corrupted traces
@@ -884,7 +1002,7 @@ def selftest(tier: str) -> int:
     for p in good:
         evs = json.loads(json.dumps(p["events"]))
         med = [e for e in evs if e["op"] == "access" and e["a"] == "media" and not e["exc"]]
-        att = [e for e in evs if e["op"] == "access" and e["a"] != "media" and not e["exc"]]
+        att = [e for e in evs if e["op"] == "access" and e["a"] in PAIRS and not e["exc"] and e["val"] != "empty"]
         kind = len(corrupted) % 4
         if kind == 0 and med:
             med[-1]["js"] = med[-1]["js"] + [UNKNOWN]
